@@ -250,7 +250,9 @@ class ClimateNetwork(GeoNetwork):
         grid = GeoGrid.Load(filename_grid)
 
         #  Load similarity measure
-        similarity_measure = np.load(filename_similarity_measure)
+        #  (written by ndarray.dump in save(), i.e. as a pickle)
+        similarity_measure = np.load(filename_similarity_measure,
+                                     allow_pickle=True)
 
         #  Load to igraph Graph object
         graph = igraph.Graph.Read(f=filename_network, format=fileformat,
@@ -266,9 +268,11 @@ class ClimateNetwork(GeoNetwork):
         else:
             node_weights = None
 
-        #  Create ClimateNetwork instance
+        #  Create ClimateNetwork instance.  The threshold is not stored in any
+        #  of the files: start from the empty network (infinite threshold) and
+        #  restore the adjacency matrix from the network file.
         net = ClimateNetwork(grid=grid, similarity_measure=similarity_measure,
-                             directed=graph.is_directed(),
+                             threshold=np.inf, directed=graph.is_directed(),
                              silence_level=silence_level)
         net.adjacency = A
         net.node_weights = node_weights
